@@ -37,6 +37,18 @@ func c03Oracle(w *World, sig map[string]string, shape hookShape, declared []*Res
 			pns, puid := mstr(parent, "namespace"), mstr(parent, "uid")
 			children := getMap(h.Req, shape.ChildrenKey)
 			where := fmt.Sprintf("%s hook request for %s %s/%s (step %d)", h.Kind, getStr(parent, "kind"), pns, mstr(parent, "name"), h.ParkStep)
+			// a rolling update also asks the hook about older parent revisions: such a request
+			// carries the revisioned fields (by default all of spec, the child selector
+			// included) as recorded then, while the children were claimed with the selector
+			// of the parent as it is now
+			oldRevision := false
+			if pres := resOf(w, parent); pres != nil {
+				var prv int64
+				fmt.Sscan(mstr(parent, "resourceVersion"), &prv)
+				if srv := w.Store.VersionAt(pres, pns, mstr(parent, "name"), prv); srv != nil {
+					oldRevision = jsonString(mustParse(srv)["spec"]) != jsonString(parent["spec"])
+				}
+			}
 			// (1) exactly one entry per declared child resource
 			want := map[string]*Resource{}
 			for _, r := range declared {
@@ -122,7 +134,7 @@ func c03Oracle(w *World, sig map[string]string, shape hookShape, declared []*Res
 							return v
 						}
 					}
-					if matches != nil && !matches(parent, res, o) {
+					if matches != nil && !oldRevision && !matches(parent, res, o) {
 						if v := report(&Violation{Prop: shape.Prop, Class: "non-matching-object-shown", Sig: sig, Step: h.ParkStep,
 							Detail: fmt.Sprintf("%s: %s (labels %v) does not match the parent's selector", where, id, labelsOf(o))}); v != nil {
 							return v
@@ -255,6 +267,7 @@ func C03Scenario() *Scenario {
 			ops = append(ops, s.OrphanOps(b)...)
 			ops = append(ops, s.ParentEdits(b)...)
 			ops = append(ops, s.ParentLifecycle(b)...)
+			ops = append(ops, s.Reselect(b)...)
 			ops = append(ops, GCOps(w)...)
 			return ops
 		}
